@@ -203,6 +203,7 @@ func c01Monitor(c *plCfg, q *plQuery, o *plObs) (ok bool, msg string) {
 //   - a plain "@@||name^" exception among the block rules, no $important or
 //     $badfilter rule and no allow-list entry concerning the name: not
 //     blocked, forwarded, reported as allow-listed.
+//
 // Unlike plHostVerdict the scope is the name, so rules about other names do
 // not silence the claim.
 func c01LatestRulesMonitor(c *plCfg, q *plQuery, o *plObs) (ok bool, msg string, classes []string) {
@@ -533,9 +534,12 @@ func TestVerifC01(t *testing.T) {
 			ok, msg = false, adMsg
 		}
 		extra = append(extra, adClasses...)
-		if ps.queueMode {
+		if ps.queueMode || ps.refreshMode {
 			// the queue is served (plServer.qAsk): the rules in force are
-			// those of the latest accepted configuration change
+			// those of the latest accepted configuration change; refresh mode
+			// (plServer.rfAsk, no pass has left files ahead of the engines):
+			// the rules in force are those of the stored files of the enabled
+			// lists
 			qOK, qMsg, qClasses := c01LatestRulesMonitor(ps.cfg, q, &o)
 			if ok && !qOK {
 				ok, msg = false, qMsg
@@ -547,9 +551,16 @@ func TestVerifC01(t *testing.T) {
 				ok, msg = false, fmt.Sprintf("after the changes were served %s %s is not answered by the rules of the latest configuration: %s",
 					q.Name, dns.TypeToString[q.QType], d)
 			}
-			extra = append(extra, "queue-compared-with-fresh-server")
-			if !ok {
+			if ps.queueMode {
+				extra = append(extra, "queue-compared-with-fresh-server")
+			} else {
+				extra = append(extra, "refresh-compared-with-fresh-server")
+			}
+			if !ok && ps.queueMode {
 				msg += fmt.Sprintf(" [history: %s]", strings.Join(ps.histDesc, "; "))
+			}
+			if !ok && ps.refreshMode {
+				msg += fmt.Sprintf(" [history: %s]", strings.Join(ps.rf.desc, "; "))
 			}
 		}
 		res := o.Result
@@ -1015,6 +1026,143 @@ func TestVerifC01(t *testing.T) {
 		ps := plNewServer(t, c)
 		ps.queueMode = true
 		plRunQueue(t, out, rnd, ps, 14, vfNames, qGen(rnd), emit)
+	}
+
+	// --- round 5: the protection switch as part of the history: on / off /
+	// paused through the real handlers, the clock an input; every query is
+	// judged by the last accepted switch
+	{
+		mk := func(protOn bool, deadline int) *plServer {
+			c := base()
+			c.ProtEnabled, c.Deadline = protOn, deadline
+			c.Block = []*vfRule{{ID: 100, Pattern: "||a.test^"}}
+			return plNewServer(t, c)
+		}
+		k := 0
+		plProtPrelude(t, out, mk, func() *plQuery {
+			k++
+			name := []string{"b.a.test.", "a.test.", "xa.test."}[k%3]
+			return &plQuery{Name: name, QType: dns.TypeA, Addr: cli, Answer: c01Answer(rnd.Fork(10), name, dns.TypeA)}
+		}, emit)
+	}
+	nProt := out.Scale(24, 700)
+	for i := 0; i < nProt; i++ {
+		ps := plNewServer(t, plProtCfg(rnd, vfNames))
+		plRunProt(t, out, rnd, ps, 12, func() *plQuery {
+			name := vfMixCase(rnd, vfPick(rnd, vfNames)) + "."
+			qt := dns.TypeA
+			if rnd.Chance(1, 4) {
+				qt = vfPick(rnd, vfQTypes[:7])
+			}
+			return &plQuery{Name: name, QType: qt, Addr: netip.MustParseAddr(vfPick(rnd, plClientAddrs)), Answer: c01Answer(rnd, name, qt)}
+		}, emit)
+	}
+
+	// --- round 5: refresh passes over sources that change and fail
+	{
+		rs := func(id int, names ...string) (out []*vfRule) {
+			for i, n := range names {
+				out = append(out, &vfRule{ID: id + i, Pattern: "||" + n + "^"})
+			}
+			return out
+		}
+		g := qGen(rnd.Fork(11))
+		askR := func(ps *plServer, name string, extra ...string) {
+			q := g(name)
+			q.QType, q.Answer = dns.TypeA, c01Answer(rnd.Fork(12), name, dns.TypeA)
+			ps.rfAsk(out, q, emit, extra...)
+		}
+		// two block lists refreshed together: one source brings a new rule,
+		// the other fails (status 500, then a body cut short): the new rule is
+		// in force, the removed one is not
+		for _, viaHandler := range []bool{true, false} {
+			c := base()
+			c.Lists = []*plList{{Name: "steady", Rules: rs(100, "a.test")}, {Name: "flaky", Rules: rs(110, "xa.test")},
+				{Name: "ok", White: true, Rules: rs(200, "c.b.a.test")}}
+			ps := plNewServer(t, c)
+			plStartRefresh(t, ps)
+			askR(ps, "x.test.")
+			ps.rfPass(t, out, true, !viaHandler, viaHandler, viaHandler)
+			askR(ps, "a.test.", "prelude-refresh-quiet-pass")
+			ps.rfSource(0, rs(120, "a.test", "x.test"), 0)
+			ps.rfSource(1, nil, 1)
+			ps.rfPass(t, out, true, !viaHandler, viaHandler, viaHandler)
+			askR(ps, "x.test.", "prelude-refresh-partial-failure-new-rule-in-force")
+			askR(ps, "xa.test.", "prelude-refresh-failed-list-still-in-force")
+			ps.rfSource(0, rs(130, "x.test"), 0)
+			ps.rfSource(1, nil, 2)
+			ps.rfPass(t, out, true, !viaHandler, viaHandler, viaHandler)
+			askR(ps, "a.test.", "prelude-refresh-partial-failure-removed-rule-not-in-force")
+			askR(ps, "x.test.")
+			// every block list fails: a network error, nothing changes
+			ps.rfSource(0, rs(140, "a.test"), 1)
+			ps.rfPass(t, out, true, !viaHandler, viaHandler, viaHandler)
+			askR(ps, "a.test.", "prelude-refresh-all-failed-nothing-changes")
+			askR(ps, "x.test.", "prelude-refresh-all-failed-nothing-changes")
+			// the sources come back
+			ps.rfSource(0, nil, 0)
+			ps.rfSource(1, rs(150, "xa.test", "b.a.test"), 0)
+			ps.rfPass(t, out, true, !viaHandler, viaHandler, viaHandler)
+			for _, n := range []string{"a.test.", "x.test.", "xa.test.", "b.a.test.", "c.b.a.test."} {
+				askR(ps, n, "prelude-refresh-sources-back")
+			}
+			out.Emit(ps.refreshCase())
+		}
+		{
+			// two allow lists: one source drops its exemption while the other
+			// fails: the name is blocked again; then every block list fails
+			// while an allow list is updated (files ahead of the engines: the
+			// history alone is compared), a quiet pass, and a pass that
+			// catches up
+			c := base()
+			c.Custom = rs(0, "a.test")
+			c.Lists = []*plList{{Name: "ads", Rules: rs(100, "xa.test")},
+				{Name: "ok1", White: true, Rules: rs(200, "b.a.test", "x.test")}, {Name: "ok2", White: true, Rules: rs(210, "c.b.a.test")}}
+			ps := plNewServer(t, c)
+			plStartRefresh(t, ps)
+			askR(ps, "b.a.test.", "prelude-refresh-exempted")
+			ps.rfSource(1, rs(220, "x.test"), 0)
+			ps.rfSource(2, nil, 1)
+			ps.rfPass(t, out, false, true, true, true)
+			askR(ps, "b.a.test.", "prelude-refresh-exemption-dropped-other-allow-list-failing")
+			askR(ps, "c.b.a.test.")
+			ps.rfSource(0, nil, 2)
+			ps.rfSource(1, rs(230, "x.test", "b.a.test"), 0)
+			ps.rfPass(t, out, true, true, true, false)
+			askR(ps, "b.a.test.", "prelude-refresh-files-ahead")
+			ps.rfSource(2, nil, 0)
+			ps.rfPass(t, out, true, true, false, false)
+			askR(ps, "b.a.test.", "prelude-refresh-quiet-pass-engine-stays-behind")
+			ps.rfSource(0, rs(160, "xa.test", "x.test"), 0)
+			ps.rfPass(t, out, true, false, true, true)
+			for _, n := range []string{"a.test.", "x.test.", "xa.test.", "b.a.test.", "c.b.a.test."} {
+				askR(ps, n, "prelude-refresh-caught-up")
+			}
+			// a list switched off and on again while its source fails / answers
+			ps.rfSwitch(t, out, 0)
+			askR(ps, "xa.test.")
+			ps.rfSource(0, nil, 1)
+			ps.rfSwitch(t, out, 0)
+			askR(ps, "xa.test.", "prelude-refresh-switch-on-failing-source")
+			ps.rfSource(0, rs(170, "xa.test"), 0)
+			ps.rfSwitch(t, out, 0)
+			askR(ps, "xa.test.")
+			askR(ps, "x.test.")
+			out.Emit(ps.refreshCase())
+		}
+	}
+	nRf := out.Scale(24, 700)
+	for i := 0; i < nRf; i++ {
+		c := plGenCfg(rnd, vfNames)
+		if rnd.Chance(4, 5) {
+			c.ProtEnabled, c.Deadline, c.Filtering = true, 0, true
+		}
+		if rnd.Chance(1, 2) {
+			c.Clients, c.Svcs, c.SB, c.Par = nil, nil, false, false
+		}
+		plGenLists(rnd, c, vfNames)
+		ps := plNewServer(t, c)
+		plRunRefresh(t, out, rnd, ps, 14, vfNames, qGen(rnd), emit)
 	}
 
 	// --- round 2 random configurations
